@@ -2,6 +2,7 @@ package main
 
 import (
 	"context"
+	"crypto/tls"
 	"fmt"
 	"net"
 	"strings"
@@ -13,6 +14,7 @@ import (
 
 	"kvharness/internal/drv"
 	"kvharness/internal/rec"
+	"kvharness/internal/tlsm"
 )
 
 // ---- C11: Shutdown schedules replayed on the real server ------------------------------------------------------
@@ -432,15 +434,68 @@ func c11AfterServeFailed(r *Result) {
 	}
 }
 
+// c11HandshakeFailure: sessions that end before they really begin - the TLS handshake of an accepted connection fails (plaintext
+// peer, peer that hangs up, peer silent until the read deadline) - are sessions that were started all the same: "Shutdown
+// returns nil only when every session that was started has ended AND ITS CONNECTION HAS BEEN CLOSED".
+func c11HandshakeFailure(r *Result) {
+	ca := tlsm.NewCA("c11-ca")
+	serverCert := tlsm.Leaf(ca, tlsm.LeafOpts{Host: "kmip.test"})
+	for _, how := range []string{"plaintext", "hangup", "silent"} {
+		key := fmt.Sprintf("TLS-serving Server, accepted connection whose handshake fails (%s peer), then Shutdown", how)
+		r.eval(key, true)
+		cfg := &tls.Config{Certificates: []tls.Certificate{serverCert}, ClientCAs: ca.Pool}
+		kmip.DefaultServerTLSConfig(cfg)
+		s := &kmip.Server{TLSConfig: cfg, ReadTimeout: 200 * time.Millisecond, WriteTimeout: 200 * time.Millisecond}
+		sc, cc := rec.Pipe()
+		rc := rec.NewConn(sc, 1)
+		l := rec.NewListener()
+		l.Push(rec.AcceptStep{Conn: tls.Server(rc, cfg)})
+		init := make(chan struct{})
+		ret := make(chan error, 1)
+		go func() { ret <- s.Serve(l, init) }()
+		<-init
+		_ = cc.SetDeadline(time.Now().Add(3 * time.Second))
+		switch how {
+		case "plaintext":
+			_, _ = cc.Write([]byte("GET / HTTP/1.1\r\nHost: kmip\r\n\r\n"))
+		case "hangup":
+			cc.Close()
+		}
+		// the handshake fails at once (plaintext / hangup) or at the read deadline (silent)
+		time.Sleep(500 * time.Millisecond)
+		ctx, cancel := context.WithTimeout(context.Background(), 3*time.Second)
+		sdErr := s.Shutdown(ctx)
+		cancel()
+		closed := false
+		select {
+		case <-rc.Closed():
+			closed = true
+		default:
+		}
+		obs := fmt.Sprintf("shutdown=%v connection-closed-by-the-server=%v", sdErr, closed)
+		if obs != "shutdown=<nil> connection-closed-by-the-server=true" {
+			r.find(Finding{Kind: "violation", What: "Shutdown returned while the connection of a session that had been started (and whose TLS handshake failed) was not closed", Input: key,
+				Expect: "shutdown=<nil> connection-closed-by-the-server=true", Actual: obs})
+		}
+		cc.Close()
+		select {
+		case <-ret:
+		case <-time.After(3 * time.Second):
+		}
+		r.Stats["handshake-failure-scenarios"]++
+	}
+}
+
 func runC11(r *Result, d *drv.Driver, tier string, seed int64, replay string) {
 	c11ShutdownFirst(r, d)
 	c11AfterServeFailed(r)
+	c11HandshakeFailure(r)
 	maxLen := 5
 	if tier == "thorough" {
 		maxLen = 7
 	}
 	r.Rule = fmt.Sprintf("exhaustive: every schedule up to length %d over {connection arrives and is served, request put in flight (handler blocked), handler released, client closes, Shutdown called, Shutdown landing between Accept returning and registration, context cancelled} that is a run of the Lean transition system; "+
-		"each is replayed on the real Server through an injected listener (Shutdown is called from inside Accept to place it deterministically), blocking handlers and a cancellable context; observed: Shutdown's and Serve's return values, sessions started / still open / connections closed late, and the order of Shutdown's return relative to session starts and ends. plus: Shutdown before Serve; Shutdown after Serve ended by itself on a permanent Accept error with sessions still open. distinct = one per schedule; non-trivial = contains Shutdown", maxLen)
+		"each is replayed on the real Server through an injected listener (Shutdown is called from inside Accept to place it deterministically), blocking handlers and a cancellable context; observed: Shutdown's and Serve's return values, sessions started / still open / connections closed late, and the order of Shutdown's return relative to session starts and ends. plus: Shutdown before Serve; Shutdown after Serve ended by itself on a permanent Accept error with sessions still open; Shutdown after the TLS handshake of an accepted connection failed (the connection must have been closed). distinct = one per schedule; non-trivial = contains Shutdown", maxLen)
 	r.Exhaustive = true
 	alphabet := []string{"A", "Q", "R", "C", "S", "L", "X"}
 	var seqs [][]string
